@@ -28,7 +28,8 @@ class C09(flow.Spec):
                'the checker on traces; it is not a verified compilation']
     assumptions = ['translator gen/lockskel (go/ast): receiver-rooted selectors = shared state; fields never assigned by AllocFrame/FreeFrame '
                    'or their callees are treated as read-only after init (pools[i].startFrame/endFrame, len(pools))',
-                   'mutual exclusion of the spinlock: C08', 'sequential behaviour of AllocFrame/FreeFrame: C01/C03']
+                   'mutual exclusion of the spinlock: C08', 'sequential behaviour of AllocFrame/FreeFrame: C01/C03',
+                   'an add-only verif shim in package sync installs runtime.Gosched as the lock\'s yield hook (overlay only)']
 
     def gen_cases(self, rng, tier):
         n = {'quick': 24, 'thorough': 300, 'search': 80}[tier]
